@@ -23,7 +23,7 @@ RULE = ("per-lint positive and negative template families (numerals re-spelled 0
 ASSUME = [
     "full_moon's parser and Visitor (every Expression / TableConstructor / FunctionCall / statement node is visited exactly once); "
     "the AST exchange format (harness/src/astdump.rs, lean/Selene/Lua/Read.lean)",
-    "Rust's `str::parse::<f32>` is correctly rounded and accepts exactly the decimal grammar of `decimalValue` on number tokens; "
+    "Rust's `str::parse::<f64>` is correctly rounded and accepts exactly the decimal grammar of `decimalValue` on number tokens; "
     "the regex crate's leftmost-first semantics for `\\\\(u\\{|.)([\\da-fA-F]*)(\\}?)`, with `\\d` read as ASCII digits",
     "Lua stores a numeral as the nearest double (ties to even): `denotesZero`, `denotesLeOne` are the exact thresholds 2^-1075 and 1+2^-53",
     "string arguments without parentheses (`f\"…\"`) are not Expression nodes; bad_string_escape does not visit them and the specification does not judge them",
